@@ -271,6 +271,75 @@ def h_ata(ctx, cmd, with_data):
         ctx.check("T_DIR=1: empty data-out buffer", blen(c.dataout) == 0)
 
 
+def h_facade_state(ctx, form, kind):
+    """through one facade object: whatever the device answered to earlier READ CAPACITY / INQUIRY / MODE SENSE calls,
+    a later READ or WRITE carries tl x (the block size the caller configured) bytes, as its CDB announces"""
+    from pyscsi.pyscsi.scsi import SCSI
+    from stubs.recdev import RecDevice
+    import pyscsi.pyscsi.scsi_enum_command as ec
+    n = [0]
+
+    def on(dev, c):
+        # the device fills every data-in buffer of the learning phase with arbitrary bytes
+        if n[0] is not None and _is_buffer(c.datain) and getattr(c.datain, "symlen", None) is None and 0 < len(c.datain) <= 64:
+            n[0] += 1
+            c.datain[:] = ctx.bytes("answer%d" % n[0], len(c.datain))
+    dev = RecDevice(ec.sbc, on_execute=on)
+    s = SCSI(RecDevice(), 512)
+    s.device = dev
+    bs = 512
+    for m, kw in (("readcapacity16", {"alloclen": 32}), ("readcapacity10", {}), ("inquiry", {"alloclen": 36}),
+                  ("modesense6", {"page_code": 0x0A, "alloclen": 24})):
+        ctx.attempt(getattr(s, m), **kw)
+    n[0] = None
+    tl = ctx.int("tl", 8)
+    flags = {"group": ctx.int("group", 5), "dpo": ctx.int("dpo", 1), "fua": ctx.int("fua", 1)}
+    if kind == "read":
+        flags["rdprotect"] = ctx.int("rdprotect", 3)
+        c = getattr(s, "read" + form)(ctx.int("lba", 31), tl, **flags)
+        ctx.check("READ(%s) after capacity/inquiry/mode-sense calls: data-in is tl x blocksize" % form,
+                  blen(c.datain) == ctx.oracle(tl * bs))
+    else:
+        flags["wrprotect"] = ctx.int("wrprotect", 3)
+        k = ctx.concrete(ctx.int("blocks", 2, lo=1, hi=2))
+        data = bytearray(b"\x11" * (bs * k))
+        c = getattr(s, "write" + form)(ctx.int("lba", 31), k, data, **flags)
+        ctx.check("WRITE(%s): data-out is the caller's buffer" % form, c.dataout is data)
+        spec = L.CDB["WRITE(%s)" % form]
+        ctx.check("WRITE(%s): the CDB announces the blocks the caller passed" % form,
+                  L.decode_cdb(spec, c.cdb)["tl"] == ctx.oracle(k))
+    ctx.check("the facade's block size is still the configured one", s.blocksize == ctx.oracle(bs))
+
+
+def h_payload_kinds(ctx, form, transport, kind):
+    """write data handed over as bytes / bytearray / a memoryview slice of a larger buffer: the binding receives
+    exactly those bytes"""
+    from stubs import env
+    sd, idv = env.install()
+    from pyscsi.pyscsi.scsi import SCSI
+    import pyscsi.pyscsi.scsi_enum_command as ec
+    env.ENV.reset(None)
+    dev = sd.SCSIDevice("/dev/sg0", readwrite=True) if transport == "sgio" else idv.ISCSIDevice("iscsi://h/t/0", "iqn.t")
+    dev.opcodes = ec.sbc
+    s = SCSI(RecDeviceNone(), 4)
+    s.device = dev
+    big = bytearray(range(64))
+    off = ctx.concrete(ctx.int("offset", 3, lo=0, hi=7)) * 4
+    want = bytes(big[off:off + 8])
+    data = {"bytes": want, "bytearray": bytearray(want), "memoryview": memoryview(big)[off:off + 8]}[kind]
+    c = getattr(s, "write" + form)(ctx.int("lba", 16), 2, data)
+    calls = env.ENV.sgio_calls if transport == "sgio" else env.ENV.iscsi_tasks
+    ctx.check("one command at the binding", len(calls) == ctx.oracle(1))
+    if calls:
+        got = calls[-1].dataout
+        ctx.check("the binding receives exactly the caller's bytes (%s)" % kind, bytes(got) == want, repr(bytes(got))[:60])
+
+
+def RecDeviceNone():
+    from stubs.recdev import RecDevice
+    return RecDevice()
+
+
 class _Only:
     """harness-context proxy that keeps only the checks whose label matches (everything else the wrapped harness
     states belongs to another property and is decided there)"""
@@ -303,6 +372,15 @@ def obligations(tier):
     obs = []
     for o in c05.obligations(tier):
         obs.append(Ob("plist/" + o.name, MOD, "h_plist", {"func": o.func, "params": o.params}))
+    for form in ("10", "12", "16"):
+        for kind in ("read", "write"):
+            obs.append(Ob("facade-state/%s%s" % (kind, form), MOD, "h_facade_state", {"form": form, "kind": kind}))
+        for tr in ("sgio", "iscsi"):
+            for kind in ("bytes", "bytearray", "memoryview"):
+                if tier == "quick" and form == "12":
+                    continue
+                obs.append(Ob("payload/%s/write%s/%s" % (tr, form, kind), MOD, "h_payload_kinds",
+                              {"form": form, "transport": tr, "kind": kind}, canary=False))
     for cmd, spec in L.CDB.items():
         if spec["data"][0] == "ata":
             for wd in (False, True):
